@@ -30,6 +30,8 @@ Qed.
 
 (* side conditions of the text theorem *)
 Definition lingo_plain_call (nm : string) : bool := negb (String.eqb nm "sound") && negb (mem_str (lower nm) LIST_FUNCTIONS).
+Definition acc_plain (o : string) : bool :=
+  negb (String.eqb o "me") && negb (starts_with "_" o) && negb (String.eqb o "tell_obj").
 Fixpoint text_ok (en : env) (e : expr) {struct e} : Prop :=
   match e with
   | ELoc i => match nth i (e_locals en) (Leaf KLocal "" 0 true) with Leaf KLocal _ _ _ => True | _ => False end
@@ -47,6 +49,8 @@ Fixpoint text_ok (en : env) (e : expr) {struct e} : Prop :=
   | EMenu _ it mn => text_ok en it /\ text_ok en mn
   (* a system property is written "the <name>" when its object is one of the runtime objects (_movie, _system, ...) *)
   | EThe TSystem i => starts_with "_" (assoc_or (nth i (the_table TSystem) "") SYSTEM_PROPERTIES) = true
+  (* the <name> of <x>: x is not written me / _something / tell_obj (those are the decompiler's own object names) *)
+  | EAcc _ x => text_ok en x /\ acc_plain (render en (pp_tok en x)) = true
   | _ => True
   end.
 Fixpoint text_ok_args (en : env) (l : list expr) : Prop := match l with [] => True | x :: r => text_ok en x /\ text_ok_args en r end.
@@ -148,6 +152,7 @@ Proof.
   - match goal with |- context [let '(a, b) := ?X in _] => destruct X end. destruct items; reflexivity.
   - destruct f; reflexivity.
   - destruct k; reflexivity.
+  - unfold the_name_node. destruct (assoc_str (nm en n) ASSIGN_KNOWN_PROPERTIES); reflexivity.
 Qed.
 
 Lemma ident_text en pc x : PT en x -> text_ok en x -> forall k po ind,
@@ -262,6 +267,12 @@ Proof.
     destruct (assoc_or (nth i (map fst SYSTEM_PROPERTIES) "") SYSTEM_PROPERTIES) as [|c r]; [discriminate Hok|].
     unfold starts_with in Hok. cbn [prefix] in Hok.
     match type of Hok with (if Ascii.ascii_dec ?a c then _ else _) = _ => destruct (Ascii.ascii_dec a c) as [<-|] end; [reflexivity|discriminate Hok].
+  - (* the <name> *) intros n _ pc ind. cbn [reify_e pp_tok]. norm_render. unfold the_name_node, the_name_text.
+    destruct (assoc_str (nm en n) ASSIGN_KNOWN_PROPERTIES) as [o|]; reflexivity.
+  - (* the <name> of <expression> *) intros n x IHx [Hx Hp] pc ind. cbn [reify_e pp_tok].
+    unfold acc_plain in Hp. apply andb_true_iff in Hp. destruct Hp as [Hp H3]. apply andb_true_iff in Hp. destruct Hp as [H1 H2].
+    apply negb_true_iff in H1. apply negb_true_iff in H2. apply negb_true_iff in H3.
+    erewrite accessor_text; [| apply (IHx Hx) | exact H1 | exact H2 | exact H3]. norm_render. reflexivity.
   - intros _ pc ind. reflexivity.
   - intros x l IHx IHl [Hx Hl] pc ind. cbn [reify_args]. destruct (reify_args en (pc + zlen (compile_e x)) l) as [ns pa] eqn:Er.
     cbn [fst map]. rewrite (IHx Hx). specialize (IHl Hl (pc + zlen (compile_e x))%Z ind). rewrite Er in IHl. cbn [fst] in IHl. rewrite IHl. reflexivity.
